@@ -110,6 +110,17 @@ func singleStore(cell *ssa.Alloc) ssa.Value {
 			val = st.Val
 			n++
 		}
+		// a closure capturing the cell may assign it
+		if mc, ok := r.(*ssa.MakeClosure); ok {
+			cf := mc.Fn.(*ssa.Function)
+			for i, b := range mc.Bindings {
+				if b == ssa.Value(cell) && i < len(cf.FreeVars) {
+					if freeVarAssigned(cf, cf.FreeVars[i], 0) {
+						return nil
+					}
+				}
+			}
+		}
 		// partial writes through field/element addresses make the content unknown
 		switch a := r.(type) {
 		case *ssa.FieldAddr:
@@ -195,6 +206,11 @@ func (tb *Terms) of(v ssa.Value, d int) *Term {
 		return &Term{Op: "Lookup", Args: []*Term{tb.of(x.X, d+1), tb.of(x.Index, d+1)}, V: v}
 	case *ssa.UnOp:
 		if x.Op == token.MUL {
+			if cell, ok := x.X.(*ssa.Alloc); ok && singleStore(cell) == nil {
+				if fv := forwardedStore(x, cell); fv != nil {
+					return tb.of(fv, d+1)
+				}
+			}
 			a := tb.of(x.X, d+1)
 			switch a.Op {
 			case "FieldAddr":
@@ -506,4 +522,72 @@ func Returns(fn *ssa.Function) []*ssa.Return {
 		}
 	})
 	return out
+}
+
+// freeVarAssigned: the closure (or a closure nested in it) stores into the
+// captured variable fv.
+func freeVarAssigned(fn *ssa.Function, fv *ssa.FreeVar, depth int) bool {
+	if depth > 3 {
+		return true
+	}
+	for _, r := range nonDebugRefs(fv) {
+		switch u := r.(type) {
+		case *ssa.Store:
+			if u.Addr == ssa.Value(fv) {
+				return true
+			}
+		case *ssa.MakeClosure:
+			cf := u.Fn.(*ssa.Function)
+			for i, b := range u.Bindings {
+				if b == ssa.Value(fv) && i < len(cf.FreeVars) && freeVarAssigned(cf, cf.FreeVars[i], depth+1) {
+					return true
+				}
+			}
+		case *ssa.FieldAddr, *ssa.IndexAddr:
+			for _, r2 := range nonDebugRefs(u.(ssa.Value)) {
+				switch w := r2.(type) {
+				case *ssa.Store:
+					if w.Addr == u.(ssa.Value) {
+						return true
+					}
+				case *ssa.UnOp:
+				default:
+					return true // address escapes further: conservative
+				}
+			}
+		}
+	}
+	return false
+}
+
+// cellCaptured: the local variable cell is captured by some closure.
+func cellCaptured(cell *ssa.Alloc) bool {
+	for _, r := range nonDebugRefs(cell) {
+		if _, ok := r.(*ssa.MakeClosure); ok {
+			return true
+		}
+	}
+	return false
+}
+
+// forwardedStore: the value a load of cell observes when an earlier store to
+// the same cell in the same block reaches it (no intervening store; no
+// intervening call if the cell is captured by a closure).
+func forwardedStore(ld *ssa.UnOp, cell *ssa.Alloc) ssa.Value {
+	instrs := ld.Block().Instrs
+	captured := cellCaptured(cell)
+	for j := instrIndex(ld) - 1; j >= 0; j-- {
+		switch x := instrs[j].(type) {
+		case *ssa.Store:
+			if x.Addr == ssa.Value(cell) {
+				return x.Val
+			}
+		case ssa.CallInstruction:
+			if captured {
+				return nil
+			}
+			_ = x
+		}
+	}
+	return nil
 }
